@@ -452,6 +452,16 @@ func (r *Runner) advSoundness(l *Line) lineResult {
 					}
 				}
 			}
+			// claimed hashes that are zero except for one byte, at every position (single claims)
+			for bi, b := range []int{0, 7, 8, 11, 12, 15, 16, 20, 23, 24, 31} {
+				if bi%nw != wi {
+					continue
+				}
+				h := r.sy.H(fmt.Sprintf("B%d", b))
+				for _, t := range targets {
+					run([]claim{{h, t}})
+				}
+			}
 			for i := wi; i < len(singles); i += nw {
 				run([]claim{singles[i]})
 				if maxClaim >= 2 {
